@@ -175,6 +175,10 @@ func c20(w *core.World, r *core.Report) {
 	if nR := c20RunnerUpNil(w, r, scope); nR == 0 {
 		r.OK("RUNNER-UP-NIL", "no runner-up accumulator is dereferenced in the boundary scope", "", "")
 	}
+	r.Rule("PRODUCER-CONCURRENT", 0, "K11: a function of the boundary scope that makes a channel and drains it in a loop starts everything that fills the channel (a closure capturing it, a function handed it) with a go statement: called synchronously before the drain loop the producer blocks for good once the buffer is full (RootEntry.Validate collects the validation results this way; the number of results is input-controlled).")
+	if nP := c20ProducerConcurrent(w, r, scope); nP == 0 {
+		r.OK("PRODUCER-CONCURRENT", "no make-then-drain function in the boundary scope", "", "")
+	}
 	r.Rule("TYPED-NIL", 1, "K7: in the boundary scope a function with an interface result does not return a possibly nil POINTER converted to that interface (nil constant of pointer type, or the result of a repository function that has a 'return nil') unless a nil test of the pointer dominates the conversion: the caller's 'x == nil' is false for a typed nil and the next method call dereferences nil.")
 	r.Rule("EXPAND-PROGRESS", 1, "K8: the self-recursion of Converter.ConvertNotificationTypedValues on the result of ExpandUpdate makes progress: in ExpandUpdate no store that puts the input update into a result slice is dominated by the JSON decode of the container branch (a JSON blob on a container is replaced by its expansion, never handed back).")
 	if nT := c20TypedNil(w, r, scope); nT == 0 {
